@@ -964,6 +964,12 @@ std::vector<double> GridFourier::getCandidateConstructionPoints(std::function<do
     for(int i=0; i<new_tensors.getNumIndexes(); i++)
         dynamic_values->addTensor(new_tensors.getIndex(i), [&](int l)->int{ return wrapper.getNumPoints(l); }, tweights[i]);
 
+    // samples that arrived before their tensor became admissible make a new tensor complete the moment it is registered:
+    // load it now (otherwise it is neither proposed nor ever ejected) and look for the candidates of the larger grid
+    int num_loaded_before = points.getNumIndexes();
+    loadConstructedTensors();
+    if (points.getNumIndexes() != num_loaded_before) return getCandidateConstructionPoints(getTensorWeight, level_limits);
+
     return MultiIndexManipulations::getIndexesToNodes(dynamic_values->getNodesIndexes(), wrapper);
 }
 std::vector<int> GridFourier::getMultiIndex(const double x[]){
